@@ -22,7 +22,7 @@ EXPECTED_THEOREMS = {
     "C08": ["waiting_count_exact", "queued_tasks_are_claimed", "every_queued_task_can_start", "dispatch_never_blocks", "task_conservation", "task_started_at_most_once"],
     "C11": ["released_at_parse_iff", "small_body_limit", "buffered_is_small", "ahead_step_small", "ahead_blocks_only_on_streamed_body", "ahead_heads_prefix_of_run"],
     "C14": ["declared_length_allocation_bounded", "accepted_content_length_fits", "accepted_chunk_size_fits", "discard_read_size_bounded", "limited_read_request_bounded", "te_comparison_consistent", "nan_is_rejected", "run_always_ends_regularly"],
-    "C15": ["respond_swallows_client_errors", "incomplete_head_not_delivered", "no_terminator_no_head", "incomplete_small_body_not_delivered", "head_in_prefix_is_head", "body_read_never_blocks_when_closed", "read_up_to_never_blocks_when_closed", "drain_terminates_when_closed", "handle_never_blocks_when_closed"],
+    "C15": ["respond_swallows_client_errors", "incomplete_head_not_delivered", "no_terminator_no_head", "incomplete_small_body_not_delivered", "head_in_prefix_is_head", "body_read_never_blocks_when_closed", "read_up_to_never_blocks_when_closed", "drain_terminates_when_closed", "handle_never_blocks_when_closed", "prefix_delivery"],
     "C20": ["min_threads_value", "idle_period_value", "active_count_exact", "untimed_waiters_bounded", "idle_pool_at_baseline", "timed_out_worker_exits", "retire_no_task_lost", "drop_wakes_everybody", "accept_loop_stops", "handed_out_still_answerable", "no_accept_after_exit"],
     "C07": ["queue_exactly_once", "log_values_are_taken", "no_lost_wakeup", "quiescent_blocked_implies_empty", "look_enabled"],
     "C17": ["token_conservation", "tokens_preserve_requests", "try_recv_never_blocks", "recv_empty_only_by_token", "recv_timeout_bounds"],
@@ -113,12 +113,13 @@ PROPS = {
         "assumptions": [],
     },
     "C02": {
-        "batches": conn_batches([("c02", 400), ("mixed", 150)], [("c02", 6000), ("mixed", 2000)]),
+        "batches": lambda tier: conn_batches([("c02", 400), ("mixed", 150)], [("c02", 6000), ("mixed", 2000)])(tier)
+                   + ctl_batches("vanishdata", 60, 1500, per=60)(tier),
         "replay_bin": "pristine", "need": ["heads", "seq", "addr", "nohang"], "agr_need": ["heads", "seq"],
         "rule": "grammar-directed request heads (nine methods + extension tokens incl. lower-case, visible-ASCII targets, 1.0/1.1, 0..64 headers with duplicates, "
                 "empty values, colons and inner whitespace, lines > 1 KiB, heads > 64 KiB, random OWS) sent over loopback TCP and UNIX sockets; delivered "
                 "method/url/version/headers/body_length/remote_addr compared with the generator's abstract request and with the model",
-        "required_tags": ["unix:1", "unix:0", "n:3"],
+        "required_tags": ["unix:1", "unix:0", "n:3", "fam:vanishdata"],
         "partial": ["theorem: head round trip for every well-formed head (Props/C02)", "observed only: remote_addr equals the client's socket address on TCP and is absent on UNIX sockets"],
         "assumptions": CONN_ASSUMPTIONS,
     },
@@ -256,7 +257,7 @@ PROPS = {
                 "beyond usize::MAX (body absent / short), chunk sizes up to and beyond 16 hex digits, 1000..20000 headers, 0.1..3 MB lines, NUL/control/non-ASCII garbage, "
                 "truncation everywhere, TE lists with up to 200 NaN/inf/exponent q-values, corner headers, 1000-request pipelines; x handlers {no read, partial, full read} x {respond, drop}; "
                 "predicate: no abnormal exit, no panic anywhere in the process, largest single allocation <= 256 KiB + 16 x bytes sent + 8 x bytes received",
-        "required_tags": ["tag:cl", "tag:chunksize", "tag:te", "tag:line", "tag:headers", "tag:garbage", "tag:truncated"],
+        "required_tags": ["tag:cl", "tag:chunksize", "tag:te", "tag:line", "tag:headers", "tag:garbage", "tag:truncated", "tag:rst"],
         "partial": ["theorem: sizes the modelled logic asks for are bounded (small-body buffer <= 1024, discard reads <= 4 KiB, accepted lengths representable), TE comparison is a strict weak order, the model is total",
                     "observed only: completeness of the panic inventory, allocator behaviour, process exit status"],
         "assumptions": CONN_ASSUMPTIONS + ["the allocation bound includes the harness's own buffers for the observation (hence the terms in bytes sent/received)"],
